@@ -34,6 +34,37 @@ export function* generate({ tier, seed }) {
       variants: [{ vid: 'v0', options: { resolveType: true, optimize: rng.bool() } }],
     };
   }
+  // same-named declarations in different scopes, several components in one module (call order = evaluation order)
+  let sc = 0;
+  const DECL = {
+    interface: (name, body) => `interface ${name} { ${body} }`,
+    alias: (name, body) => `type ${name} = { ${body} };`,
+    aliasIntersection: (name, body) => `type ${name} = { ${body.split('; ')[0]} } & { ${body.split('; ').slice(1).join('; ')} };`,
+  };
+  for (const dOuter of Object.keys(DECL)) for (const dInner of Object.keys(DECL)) for (const order of ['outerFirst', 'innerFirst']) for (const via of ['direct', 'extendsBase', 'aliasOfAlias']) for (const scope of ['fnDecl', 'arrow', 'block2fns']) {
+    const L = ['import { defineComponent } from "vue";'];
+    let outerKeys, innerKeys, outerPart, innerPart;
+    if (via === 'direct') {
+      outerKeys = ['outerA', 'outerB']; innerKeys = ['innerX'];
+      outerPart = [DECL[dOuter]('Props', 'outerA: string; outerB?: number'), 'export const Outer = defineComponent((props: Props) => () => null);'];
+      innerPart = (ind) => [ind + DECL[dInner]('Props', 'innerX: boolean'), ind + 'return defineComponent((props: Props) => () => null);'];
+    } else if (via === 'extendsBase') {
+      outerKeys = ['baseOuter', 'ownO']; innerKeys = ['baseInner', 'ownI'];
+      outerPart = [DECL[dOuter]('Base', 'baseOuter: string'), dOuter === 'interface' ? 'interface PO extends Base { ownO: number }' : 'type PO = Base & { ownO: number };', 'export const Outer = defineComponent((props: PO) => () => null);'];
+      innerPart = (ind) => [ind + DECL[dInner]('Base', 'baseInner?: string'), ind + (dInner === 'interface' ? 'interface PI extends Base { ownI: number }' : 'type PI = Base & { ownI: number };'), ind + 'return defineComponent((props: PI) => () => null);'];
+    } else {
+      outerKeys = ['oa']; innerKeys = ['ia', 'ib'];
+      outerPart = [DECL[dOuter]('Shape', 'oa: string'), 'type Props = Shape;', 'export const Outer = defineComponent((props: Props) => () => null);'];
+      innerPart = (ind) => [ind + DECL[dInner]('Shape', 'ia: string; ib?: number'), ind + 'type Props = Shape;', ind + 'return defineComponent((props: Props) => () => null);'];
+    }
+    let innerBlock, seq;
+    if (scope === 'fnDecl') innerBlock = ['function make() {', ...innerPart('  '), '}', 'export const Inner = make();'];
+    else if (scope === 'arrow') innerBlock = ['const make = () => {', ...innerPart('  '), '};', 'export const Inner = make();'];
+    else innerBlock = ['function makeA() {', ...innerPart('  '), '}', 'function makeB() {', ...innerPart('  ').map((l) => l.replace(/inner|base(?=Inner)|\bia\b/g, (m) => m)), '}', 'export const Inner = makeA();', 'export const Inner2 = makeB();'];
+    if (order === 'outerFirst') { L.push(...outerPart, ...innerBlock); seq = [outerKeys, innerKeys]; } else { L.push(...innerBlock, ...outerPart); seq = [innerKeys, outerKeys]; }
+    if (scope === 'block2fns') seq = order === 'outerFirst' ? [outerKeys, innerKeys, innerKeys] : [innerKeys, innerKeys, outerKeys];
+    yield { gid: `C16-scope-${sc++}`, src: L.join('\n') + '\n', syntax: 'tsx', spec: { sequence: seq }, feature: `scopes|${dOuter}|${dInner}|${order}|${via}|${scope}`, variants: [{ vid: 'v0', options: { resolveType: true } }] };
+  }
   let k = 0;
   for (const [decls, p] of UNRESOLVABLE) for (const order of ['before', 'after']) {
     const src = order === 'before' ? `import { defineComponent } from "vue";\n${decls}\nexport const Comp = defineComponent((props: ${p}) => () => null);\n`
@@ -65,6 +96,15 @@ export async function check(group, records) {
       return [violated({ ...base, oracle: 'module loads', sig: `C16/load-error/${error.name}`, detail: error })];
     }
     const calls = rt.log.filter((e) => e.k === 'defineComponent');
+    if (group.spec.sequence) {
+      if (calls.length !== group.spec.sequence.length) return [inconclusive({ ...base, reason: `expected ${group.spec.sequence.length} defineComponent calls, saw ${calls.length}` })];
+      for (let i = 0; i < calls.length; i++) {
+        const got = Object.keys((calls[i].extraOptions || {}).props || {}).sort();
+        const exp = [...group.spec.sequence[i]].sort();
+        if (JSON.stringify(got) !== JSON.stringify(exp)) return [violated({ ...base, oracle: 'each component gets the props of the type visible in its own scope', sig: `C16/scoped-types/${group.feature.split('|').slice(3).join('/')}`, detail: { call: i, got, expected: exp } })];
+      }
+      return [held({ ...base, events: { defineComponent: calls.length, props_keys: calls.length }, shape: group.feature })];
+    }
     if (calls.length !== 1) return [inconclusive({ ...base, reason: `expected 1 defineComponent call, saw ${calls.length}` })];
     const opts = calls[0].extraOptions;
     const props = opts && opts.props;
